@@ -37,9 +37,10 @@ DictLike(v, via, e) ==
             (v.ks[i] \in DOMAIN e.dkrm /\ r \in e.dkrm[v.ks[i]])
 
 \* ------------------------------------------------------------------ semantics
-RECURSIVE Inhabits(_, _, _, _)
-Inhabits(v, t, e, G) ==
-  CASE t.k = "unknown" -> TRUE
+\* strict = TRUE: Any (unknown) admits only null -- used for routing, never for soundness
+RECURSIVE InhabitsX(_, _, _, _, _)
+InhabitsX(v, t, e, G, strict) ==
+  CASE t.k = "unknown" -> ~strict \/ v.k = "null"
     [] t.k = "null"  -> v.k = "null"
     [] t.k = "int"   -> v.k = "int"
     [] t.k = "float" -> v.k \in {"int", "float"}
@@ -47,16 +48,17 @@ Inhabits(v, t, e, G) ==
     [] t.k \in {"str", "litover"} -> v.k = "str"
     [] t.k = "pseudo" -> v.k = "str" /\ t.n \in AccOf(v.n, e)
     [] t.k = "lit"   -> v.k = "str" /\ v.n \in t.ls
-    [] t.k = "opt"   -> v.k = "null" \/ Inhabits(v, t.xs[1], e, G)
-    [] t.k = "list"  -> v.k = "list" /\ \A i \in DOMAIN v.xs : Inhabits(v.xs[i], t.xs[1], e, G)
-    [] t.k = "dict"  -> v.k = "obj" /\ \A i \in DOMAIN v.xs : Inhabits(v.xs[i], t.xs[1], e, G)
-    [] t.k = "union" -> \E m \in Members(t) : Inhabits(v, m, e, G)
-    [] t.k = "ptr"   -> t.n \in DOMAIN G /\ Inhabits(v, G[t.n], e, G)
+    [] t.k = "opt"   -> v.k = "null" \/ InhabitsX(v, t.xs[1], e, G, strict)
+    [] t.k = "list"  -> v.k = "list" /\ \A i \in DOMAIN v.xs : InhabitsX(v.xs[i], t.xs[1], e, G, strict)
+    [] t.k = "dict"  -> v.k = "obj" /\ \A i \in DOMAIN v.xs : InhabitsX(v.xs[i], t.xs[1], e, G, strict)
+    [] t.k = "union" -> \E m \in Members(t) : InhabitsX(v, m, e, G, strict)
+    [] t.k = "ptr"   -> t.n \in DOMAIN G /\ InhabitsX(v, G[t.n], e, G, strict)
     [] t.k = "obj"   ->
          /\ v.k = "obj"
-         /\ \A i \in DOMAIN v.ks : HasKey(t, v.ks[i]) /\ Inhabits(v.xs[i], FieldOf(t, v.ks[i]), e, G)
+         /\ \A i \in DOMAIN v.ks : HasKey(t, v.ks[i]) /\ InhabitsX(v.xs[i], FieldOf(t, v.ks[i]), e, G, strict)
          /\ \A j \in DOMAIN t.ks : t.xs[j].k = "opt" \/ HasKey(v, t.ks[j])
     [] OTHER -> FALSE
+Inhabits(v, t, e, G) == InhabitsX(v, t, e, G, FALSE)
 
 \* first index at which a sample is not accepted (0 = all accepted)
 FirstRejected(samples, t, e, G) ==
@@ -103,8 +105,11 @@ RoutesTo(v, m, M, via, e, G) ==
     [] v.k = "str"   -> m = StrMember(v, M, e)
     [] v.k = "list"  -> m.k = "list"
     [] v.k = "obj"   -> IF DictLike(v, via, e) THEN m.k = "dict"
-                        ELSE /\ m.k \in {"obj", "ptr"}
-                             /\ (Cardinality({q \in M : q.k \in {"obj", "ptr"}}) > 1 => Inhabits(v, m, e, G))
+                        ELSE LET C == {q \in M : q.k \in {"obj", "ptr"}}
+                                 S == {q \in C : InhabitsX(v, q, e, G, TRUE)}     \* strict candidates first
+                             IN /\ m \in C
+                                /\ (Cardinality(C) > 1 =>
+                                      IF S # {} THEN m \in S ELSE Inhabits(v, m, e, G))
     [] OTHER -> FALSE
 
 \* Tightness of one type position w.r.t. the sequence `obs` of values that reached it.
